@@ -818,6 +818,7 @@ type Trivia struct {
 	Pretty    bool   // conventional formatting: a.b, a:m(x), t[1], f(x), {k = v}, -x
 	Indent    bool
 	JoinPct   int // chance (percent) that a statement line break is written as a single space: one-line blocks, several blocks per line
+	GluePct   int // chance (percent), with Pretty, that the space on either side of a binary operator or `=` / `,` is left out (a..b, x=1+y)
 }
 
 // needsSpace reports whether a and b would lex differently when written adjacent.
@@ -901,6 +902,8 @@ func Render(r *Rng, toks []string, tv Trivia) string {
 		} else if tv.Pretty {
 			if !prettySpace(prevprev, prev, t) && !needsSpace(prev, t) {
 				sep = ""
+			} else if tv.GluePct > 0 && (glueOps[prev] || glueOps[t]) && !needsSpace(prev, t) && r.Intn(100) < tv.GluePct {
+				sep = ""
 			}
 		} else if tv.Tight && !needsSpace(prev, t) && r.Bool() {
 			sep = ""
@@ -948,6 +951,9 @@ func Render(r *Rng, toks []string, tv Trivia) string {
 	}
 	return sb.String()
 }
+
+var glueOps = map[string]bool{"..": true, "+": true, "-": true, "*": true, "/": true, "//": true, "%": true, "^": true, "==": true, "~=": true, "<": true, "<=": true,
+	">": true, ">=": true, "&": true, "|": true, "<<": true, ">>": true, "=": true, ",": true}
 
 func isWordTok(t string) bool { return t != "" && (isAlpha(t[0]) || isDigit(t[0])) }
 
